@@ -115,6 +115,16 @@ class Emitter:
                 h.write(t)
         self.pending += 1
         want = b["flush"][self.cycle % len(b["flush"])]
+        burst = b.get("burst_from")
+        if burst is not None and k >= burst:
+            # "burst": from frame `burst_from` on nothing is flushed and there are no pauses: the remaining frames become visible
+            # in one go at the end, right before the program exits (before that frame the program idles long enough to be polled)
+            if k == burst:
+                for h in handles:
+                    h.flush()
+                time.sleep(max(0.05, 6 * float(b.get("poll_hint", 0.02))))
+                self.term.check()
+            return
         if self.pending >= want:
             for h in handles:
                 h.flush()
